@@ -2792,11 +2792,12 @@ class Engine:
         args = []
         for a in n.args:
             if isinstance(a, ast.Starred):
-                try:
-                    self.ev(a.value)        # evaluating the unpacked expression may itself call, raise or fork
-                except OutOfReach:
-                    if not summ.get("ignore_args"):
-                        raise
+                if not isinstance(a.value, ast.Name):       # a bare name has nothing to execute
+                    try:
+                        self.ev(a.value)        # evaluating the unpacked expression may itself call, raise or fork
+                    except OutOfReach:
+                        if not summ.get("ignore_args"):
+                            raise
                 args.append(NONE)
                 continue
             try:
